@@ -25,11 +25,12 @@ ASSUMPTIONS = [
 
 
 def check(ctx):
-    sched_rel.check_rel(ctx, {'REL-1', 'REL-3', 'REL-4'})
+    sched_rel.check_rel(ctx, {'REL-1', 'REL-2', 'REL-3', 'REL-4'})
     sched_rel.check_enq(ctx)
     shared = sched_worker.analyse_worker(ctx)
     sched_worker.check_wrk2(ctx, shared)
     sched_worker.check_wrk1(ctx, shared)
+    sched_worker.check_raw_lock(ctx, shared)
 
 
 from ..variants import sched as _v   # noqa: E402
